@@ -190,3 +190,80 @@ def zoo_cases(prop, educed, std_for_educe_type, twin_derives, body_check):
             out.append(Case('%s|zoo|%s|%s' % (prop, zid, kind), src, {'field_type': zty, 'shape': kind, 'oracle': '#[derive(%s)] on a twin' % twin_derives},
                             expect='accept', run=True, depth=1))
     return out
+
+
+# ---- a hostile environment for the derive: modules called `core` and `std` in scope whose traits are decoys (blanket-implemented, wrong answers).
+# Generated code that reaches a std item through a relative path (`core::hash::Hash::hash(..)`) instead of `::core::..` gets the decoy.
+DECOYS = '''#[allow(dead_code, unused)]
+mod core { pub use super::decoys::*; }
+#[allow(dead_code, unused)]
+mod std { pub use super::decoys::*; }
+#[allow(dead_code, unused)]
+mod alloc { pub use super::decoys::*; }
+#[allow(dead_code, unused, clippy::all)]
+mod decoys {
+    pub mod hash {
+        pub use ::core::hash::Hasher;
+        pub trait Hash { fn hash<H: Hasher>(&self, s: &mut H); }
+        impl<T: ?Sized> Hash for T { fn hash<H: Hasher>(&self, s: &mut H) { s.write_u8(0xAA) } }
+    }
+    pub mod cmp {
+        pub use ::core::cmp::Ordering;
+        pub trait PartialEq<R: ?Sized = Self> { fn eq(&self, o: &R) -> bool; fn ne(&self, o: &R) -> bool; }
+        impl<T: ?Sized> PartialEq for T { fn eq(&self, _: &T) -> bool { true } fn ne(&self, _: &T) -> bool { true } }
+        pub trait Eq {}
+        pub trait PartialOrd<R: ?Sized = Self> { fn partial_cmp(&self, o: &R) -> ::core::option::Option<Ordering>; }
+        impl<T: ?Sized> PartialOrd for T { fn partial_cmp(&self, _: &T) -> ::core::option::Option<Ordering> { ::core::option::Option::None } }
+        pub trait Ord { fn cmp(&self, o: &Self) -> Ordering; }
+        impl<T: ?Sized> Ord for T { fn cmp(&self, _: &Self) -> Ordering { Ordering::Less } }
+    }
+    pub mod clone {
+        pub trait Clone: Sized { fn clone(&self) -> Self; fn clone_from(&mut self, s: &Self); }
+        impl<T> Clone for T { fn clone(&self) -> Self { panic!("decoy Clone::clone") } fn clone_from(&mut self, _: &Self) { panic!("decoy Clone::clone_from") } }
+    }
+    pub mod fmt {
+        pub use ::core::fmt::{Error, Formatter, Result};
+        pub trait Debug { fn fmt(&self, f: &mut Formatter<'_>) -> Result; }
+        impl<T: ?Sized> Debug for T { fn fmt(&self, f: &mut Formatter<'_>) -> Result { f.write_str("decoy") } }
+    }
+    pub mod default {
+        pub trait Default: Sized { fn default() -> Self; }
+        impl<T> Default for T { fn default() -> Self { panic!("decoy Default::default") } }
+    }
+    pub mod convert {
+        pub trait Into<T>: Sized { fn into(self) -> T; }
+        impl<S, T> Into<T> for S { fn into(self) -> T { panic!("decoy Into::into") } }
+    }
+    pub mod ops {
+        pub trait Deref { type Target: ?Sized; fn deref(&self) -> &Self::Target; }
+        pub trait DerefMut: Deref { fn deref_mut(&mut self) -> &mut Self::Target; }
+    }
+    pub mod marker { pub trait Copy {} pub trait Sized {} }
+    pub mod option { pub enum Option<T> { None, Some(T) } }
+    pub mod mem { pub fn size_of<T>() -> usize { 0 } }
+    pub mod slice { pub unsafe fn from_raw_parts<'a, T>(_: *const T, _: usize) -> &'a [T] { &[] } }
+    pub mod ptr { pub fn eq<T: ?Sized>(_: *const T, _: *const T) -> bool { true } }
+}
+'''
+
+
+def with_decoys(case):
+    """the same case with decoy `core` / `std` / `alloc` modules in scope of the derive; None if the case's own code uses relative std paths"""
+    import re
+    from ..core import Case
+    # the case's own relative std paths are made absolute first
+    body = re.sub(r'(?<![:A-Za-z0-9_])(std|core|alloc)::', r'::\1::', case.body)
+    spec = dict(case.spec)
+    spec['environment'] = 'decoy core / std / alloc modules in scope'
+    return Case(case.key + '|decoys', DECOYS + body, spec, case.expect, case.run, case.depth + 1, case.tags)
+
+
+def decoy_layer(cases, n=60):
+    """about n cases spread over the list, each repeated inside the decoy environment"""
+    out = []
+    step = max(1, len(cases) // n)
+    for c in cases[::step]:
+        d = with_decoys(c)
+        if d is not None:
+            out.append(d)
+    return out
